@@ -31,7 +31,7 @@ func c13Has(set []string, x string) bool {
 	return false
 }
 
-//verif:entry tier=quick,thorough maporder=perm cover=add,delete,update,sameversion,nochange
+//verif:entry native tier=quick,thorough maporder=perm cover=add,delete,update,sameversion,nochange
 //verif:doc Kubernetes handler: 2 (quick) / 3 (thorough) events Add / Delete / Update, each carrying 0..2 addresses (atoms: equal or different, solver-chosen); after every event the last published slice equals the current address set (as a set, no duplicates), and nothing is published when the set did not change; Update with an equal ResourceVersion publishes nothing, Update with a different one (sorting before or after the old one: versions are opaque) is applied.
 func Verif_C13_Kube() {
 	var published []string
